@@ -755,6 +755,21 @@ func GenExec(t *rapid.T, f Features) *ExecCase {
 		g.privs = append(g.privs, pv)
 		g.class("private-var")
 	}
+	// private variables whose initialiser is an override-expression (C14: "global
+	// initialisers ... derived from other overrides")
+	if f.Overrides && len(g.overrides) > 0 && !f.off("override.global-init") {
+		for i, n := 0, g.intn(3, "npvo"); i < n; i++ {
+			ov := g.overrides[g.intn(len(g.overrides), "pvoov")]
+			init := g.overrideInit(ov.T, 2)
+			if p, o := isPureOverrideExpr(init); !p || !o {
+				init = &VarRef{ov}
+			}
+			pv := &Var{Name: g.name("pvo"), Kind: VPrivate, T: ov.T, Init: init}
+			addGlobal(pv)
+			g.privs = append(g.privs, pv)
+			g.class("private-var:override-init")
+		}
+	}
 	// workgroup memory (multi only): written before, read after a barrier
 	var wgVar *Var
 	if g.multi && g.chance(60, "wgv") && !f.off("workgroup") {
